@@ -267,7 +267,7 @@ def plan_args(r: random.Random, op: dict, sig: list, tok: Tok, san, mode: str) -
     all_params = op["pathParams"] + op["params"]
     kinds: dict = {}
     for p in all_params:
-        ident = san(san(p["name"])) if not multi else san(p["name"])
+        ident = san(san(p["name"]))     # (also in the method for several media types since F12 is repaired)
         kinds.setdefault(ident, p["kind"])
     args, model_args, wire = {}, [], {}
     body_idents = {"body", "files", "form_data", "bytes_content", "data"}
